@@ -151,6 +151,7 @@ def run_shard(desc):
 
     steps = []
     meta = []
+    float_seen = {}
     if kind == "int":
         for ty in INTS:
             for x in int_payloads(ty, rnd, n):
@@ -161,6 +162,27 @@ def run_shard(desc):
             for b in float_payloads(ty, rnd, n):
                 steps.append({"op": "conv", "ty": ty, "x": "%x" % b})
                 meta.append((ty, b))
+    elif kind == "floatmix":
+        # the same quantities converted through both widths back to back (f32 x then f64 (x as f64), and the reverse), and the
+        # float pools in shuffled order: every conversion is judged on its own and must not depend on what was converted before
+        pool32 = float_payloads("f32", rnd, n)
+        for b in rnd.sample(pool32, min(len(pool32), 3 * n)):
+            x = struct.unpack("<f", struct.pack("<I", b))[0]
+            if math.isnan(x) or math.isinf(x):
+                continue
+            pair = [("f32", b), ("f64", f64_bits(x))]
+            if rnd.random() < 0.5:
+                pair.reverse()
+            if rnd.random() < 0.3:
+                pair.append(pair[0])
+            for ty, bb in pair:
+                steps.append({"op": "conv", "ty": ty, "x": "%x" % bb})
+                meta.append((ty, bb))
+        mixed = [("f64", b) for b in float_payloads("f64", rnd, n // 2)] + [("f32", b) for b in float_payloads("f32", rnd, n // 2)]
+        rnd.shuffle(mixed)
+        for ty, bb in mixed + mixed[: len(mixed) // 3]:
+            steps.append({"op": "conv", "ty": ty, "x": "%x" % bb})
+            meta.append((ty, bb))
     elif kind == "dec":
         ms = [0, 1, -1, 3, 30, 300, 10, 15, -15, 25, (1 << 63) - 1, 1 << 63, -(1 << 63), -(1 << 63) - 1, 1 << 64, TWO96 - 1, -(TWO96 - 1), 10 ** 27, 123456789]
         for s in range(0, 29):
@@ -173,6 +195,10 @@ def run_shard(desc):
     else:
         vals = [["s", ""], ["s", "a"], ["s", "é日本"], ["s", "1"], ["s", "true"], ["b", True], ["b", False], ["l", []], ["l", [["n", "1", 0], ["s", "a"], ["l", [["b", True]]]]], ["l", [["z"]]],
                 ["m", []], ["m", [[["s", "k"], ["n", "1", 0]]]], ["z"], ["n", "1", 0], ["n", "0", 0], ["n", "15", 1]]
+        # strings with every kind of edge content: leading/trailing blanks, BOM / zero-width / control characters, quotes, escapes, long
+        strs = gen.STRS + ["\ufeff", "\ufeffabc", "\ufeff\ufeffx", "abc\ufeff", "\ufffe", "\u200b", "\u200bx", " lead", "trail ", "\t", "\n", "a\nb", "\r\n", "\x00", "\x00a", "a\x00", "\x7f", "\u0085", "\u2028",
+                            "'", '"', "\\", "\\n", "null", "None", "0", "-0", "1e5", "NaN", "é", "e\u0301", "\U0001F600", "\U0001F468\u200d\U0001F469", "x" * 1000, "\ufeff" * 3, "True", "false ", " "]
+        vals = vals + [["s", x] for x in strs] + [["l", [["s", x] for x in strs[:40]]]] + [["l", [["s", "\ufeffa"], ["l", [["s", "\ufeff"]]]]]]
         for j in vals:
             if j[0] in ("s", "b", "l"):
                 steps.append({"op": "conv", "ty": {"s": "str", "b": "bool", "l": "list"}[j[0]], "v": j, "as_str": rnd.random() < 0.5})
@@ -208,11 +234,15 @@ def run_shard(desc):
             else:
                 check_accessors(r.get("acc", {}), got, st_, "Value::from(%d%s)" % (x, ty))
             cname = "int:%s:%s" % (ty, "neg" if x < 0 else ("zero" if x == 0 else "pos")) + (":beyond-i64" if abs(x) >= 1 << 63 else "")
-        elif kind == "float":
+        elif kind in ("float", "floatmix"):
             ty, b = m
             ok, why, cls = judge_float(ty, b, r.get("val", ["?"]))
             if not ok:
                 viol(["from-float-wrong-number", ty, cls], "Value::from(%s bits 0x%x): %s" % (ty, b, why), st_)
+            if kind == "floatmix":
+                prev = float_seen.setdefault((ty, b), r.get("val"))
+                if prev != r.get("val"):
+                    viol(["from-float-depends-on-history", ty], "Value::from(%s bits 0x%x) gave %s earlier in this process and %s now" % (ty, b, json.dumps(prev), json.dumps(r.get("val"))), st_)
             cname = "float:%s:%s" % (ty, cls)
         elif kind == "dec":
             j = m[1]
@@ -265,6 +295,7 @@ def run(rep, tier):
         shards.append(("int", i, 300 if q else 20000, "release" if i % 2 else "verifdbg"))
         shards.append(("float", i, 5000 if q else 400000, "release" if i % 2 else "verifdbg"))
         shards.append(("dec", i, 40 if q else 3000, "release" if i % 2 else "verifdbg"))
+        shards.append(("floatmix", i, 3000 if q else 200000, "release" if i % 2 else "verifdbg"))
     shards.append(("matrix", 0, 0, "verifdbg"))
     shards.append(("matrix", 1, 0, "release"))
     for part in common.pmap(run_shard, shards):
